@@ -47,6 +47,14 @@ def reference_script(depeof):
     cmd(("query",)); app("set", ncols=1, items=[("row", 1), ("row", 1)]);
     A(lambda d: d.simple("EvResume"))
     cmd(("resetconn",))
+    # a statement that fails while the socket is not accepting data: its ERR waits in drain()
+    A(lambda d: d.simple("EvPause"))
+    cmd(("query",)); app("raise", raise_code=1064)
+    A(lambda d: d.simple("EvResume"))
+    A(lambda d: d.simple("EvPause"))
+    cmd(("unknown", True))
+    A(lambda d: d.simple("EvResume"))
+    cmd(("ping",))
     return S
 
 
@@ -123,6 +131,18 @@ def kill_oracle(d: ls.Driver):
         prior_kc = any(j < i for j in kc)
         if before != "done" and after == "done" and not prior_kc and not d.writer.fail:
             return dict(problem="KILL QUERY terminated the connection", at_event=i, blocked_before=before, events=d.events[max(0, i - 6): i + 1])
+    # without a KILL CONNECTION, a disconnect or QUIT, the session must never be closed: a KILL QUERY only aborts a statement
+    enders = [i for i, (e, c) in enumerate(zip(d.events, d.cmds)) if e in ("EvKill KC", "EvEof", "EvSockFail") or e.startswith("EvEofMid")
+              or e == "EvBadSeq" or (c is not None and c[0] == "quit") or e.split()[-1] in ("ANoUser", "AForbidden", "ARaise")
+              or e.startswith("EvHandshake false")]
+    first_end = enders[0] if enders else len(d.events)
+    for i, ob in enumerate(d.obs[:first_end]):
+        if any(isinstance(o, tuple) and o[0] == "OSess" and o[1] == "close" for o in ob[0]) or ob[1] == "done":
+            last_kq = max([j for j in kq if j <= i], default=None)
+            if last_kq is not None:
+                return dict(problem="KILL QUERY ended the connection (session.close called / task finished)", at_event=last_kq,
+                            blocked_before=(d.obs[last_kq - 1][1] if last_kq else d.boot_obs[1]),
+                            events=[e[:60] for e in d.events[max(0, last_kq - 6): i + 1]])
     if kc:
         i = kc[0]
         # the connection must end (once pending application calls of the shutdown path are resolved)
@@ -162,7 +182,7 @@ def run(ctx: core.Ctx):
     # random walks with kills (and pause/resume)
     for _ in range(150 if ctx.quick else 4000):
         d = ls.Driver(rng, batch=rng.choice([None, 2, 3]))
-        ls.random_walk(rng, d, rng.choice([20, 40]), faults=False, kills=True, auth_variants=False)
+        ls.random_walk(rng, d, rng.choice([20, 40]), faults=False, kills=True, auth_variants=False, pauses=True)
         finish(d)
         d.close()
         drivers.append(d)
